@@ -81,15 +81,12 @@ class Subject:
     def __init__(self, kind, callid=None, var=None, field=None, lhs_text=None):
         self.kind, self.callid, self.var, self.field, self.lhs_text = kind, callid, var, field, lhs_text
 
-    def pred(self, aliases=()):
-        if aliases and self.kind != "call" and self.var is not None:
-            base = self.pred()
+    def pred(self, holders=None):
+        if holders is not None and self.kind != "call" and self.var is not None:
             fld = self.field
-            al = set(aliases)
+            al = set(holders)
 
             def pa(t):
-                if base(t):
-                    return True
                 if fld:
                     return isinstance(t, list) and t and t[0] == "member" and t[2] == fld and is_var(t[1]) and strip_casts(t[1])[1] in al
                 return is_var(t) and strip_casts(t)[1] in al
@@ -135,13 +132,15 @@ class Subject:
                     return True
         return False
 
-    def returned_by(self, e, aliases=()):
+    def returned_by(self, e, aliases=None):
         ex = e.get("expr")
         if not ex:
             return False
         t = strip_casts(ex["tree"])
-        if aliases and (is_var(t) and t[1] in aliases):
-            return True
+        if aliases is not None and self.kind != "call" and self.var is not None:
+            if is_var(t):
+                return t[1] in aliases
+            return bool(self.field) and isinstance(t, list) and t[0] == "member" and is_var(t[1]) and strip_casts(t[1])[1] in aliases
         if self.kind == "call":
             return any(n[0] in ("call", "icall") and n[1] == self.callid for n in walk(t))
         if self.var is not None:
@@ -320,16 +319,18 @@ def explore(f, start_block, start_idx, subject, value, classify_return, max_stat
     out = []
     seen = set()
     dq = collections.deque()
+    # variables currently holding the result (the variable it was stored in, then whole-object copies of it)
+    holders0 = frozenset({subject.var}) if (subject.kind != "call" and subject.var is not None) else frozenset()
     # state: block, pos, phase(0 before site,1 after), lost, facts, env, path
     if from_entry:
-        dq.append((f.entry, 0, 0, False, (), frozenset(), (f.entry,), False, frozenset()))
+        dq.append((f.entry, 0, 0, False, (), frozenset(), (f.entry,), False, holders0))
     else:
-        dq.append((start_block.id, start_idx + 1, 1, False, (), frozenset(), (start_block.id,), False, frozenset()))
+        dq.append((start_block.id, start_idx + 1, 1, False, (), frozenset(), (start_block.id,), False, holders0))
     n = 0
     reported = set()
     while dq:
         bid, pos, phase, lost, facts, env, path, forced, aliases = dq.popleft()
-        subj = subject.pred(aliases)
+        subj = subject.pred(aliases if holders0 else None)
         n += 1
         if n > max_states:
             out.append(("unknown:state-limit", f.blocks[bid], 0, {"line": None}, path, lost))
@@ -401,17 +402,38 @@ def explore(f, start_block, start_idx, subject, value, classify_return, max_stat
                 val = c if c is not None else ("call:%s" % r[1] if isinstance(r, list) and r and r[0] in ("call", "icall") else "nonconst")
                 envd[(e["id"], None)] = val
                 env = frozenset(envd.items())
-            if phase == 1 and not lost and subject.kind != "call" and subject.var is not None and e["k"] == "assign" \
-                    and e.get("op") == "=" and e.get("base_kind") == "local" and not e.get("deref") and e.get("lhs") == e.get("base") and "rhs" in e:
-                rr = strip_casts(e["rhs"]["tree"])
-                if is_var(rr) and (rr[1] == subject.var or rr[1] in aliases) and e["base_id"] != subject.var:
-                    aliases = aliases | {e["base_id"]}      # whole-object copy of the result: `er = tmper`
+            if phase == 1 and not lost and holders0:
+                # copies of the result into other locals, and overwrites of the locals that hold it
+                tgt = src_tree = None
+                if e["k"] == "assign" and e.get("op") == "=" and e.get("base_kind") in ("local", "param") and not e.get("deref") \
+                        and e.get("lhs") == e.get("base") and "rhs" in e:
+                    tgt, src_tree = e["base_id"], e["rhs"]["tree"]
+                elif e["k"] == "decl" and "init" in e:
+                    tgt, src_tree = e["id"], e["init"]["tree"]
+                if tgt is not None:
+                    if origin_callid is not None and _stores_call(e, origin_callid):
+                        continue
+                    rr = strip_casts(src_tree)
+                    if is_var(rr) and rr[1] in aliases:
+                        aliases = aliases | {tgt}
+                    elif tgt in aliases:
+                        aliases = aliases - {tgt}
                     subj = subject.pred(aliases)
-                elif e["base_id"] in aliases:
-                    aliases = aliases - {e["base_id"]}
-                    subj = subject.pred(aliases)
-            if phase == 1 and not lost and subject.overwritten_by(e):
-                if origin_callid is not None and _stores_call(e, origin_callid):
+                elif e["k"] == "assign" and e.get("base_id") in aliases and not e.get("deref") and e.get("op") != "|=" \
+                        and (not subject.field or e.get("field") == subject.field):
+                    if not (origin_callid is not None and _stores_call(e, origin_callid)):
+                        aliases = aliases - {e["base_id"]}
+                        subj = subject.pred(aliases)
+                elif e["k"] == "call":
+                    for a in e.get("args", []):
+                        t_ = strip_casts(a.get("tree"))
+                        if isinstance(t_, list) and t_ and t_[0] == "un" and t_[1] == "&" and is_var(t_[2]) and strip_casts(t_[2])[1] in aliases:
+                            aliases = aliases - {strip_casts(t_[2])[1]}
+                            subj = subject.pred(aliases)
+                if not aliases:
+                    lost = True
+            elif phase == 1 and not lost and subject.overwritten_by(e):
+                if origin_callid is not None and bid == start_block.id and _stores_call(e, origin_callid):
                     continue
                 lost = True
         if stop:
